@@ -174,3 +174,21 @@ CHECKS["C04"] = dict(
                      "TestC04Restart.restart_unregistered": 40}),
     assumptions=["a validator error on restart is only required to give a not-accepted reply and a closed transport (weaker reading, DESIGN C04)"],
 )
+
+CHECKS["C05"] = dict(
+    level="exploration",
+    rule=("C05Messages: a population of 1-6 open channels (all four roles, three peers, transfer ids deliberately colliding across peers, some with a later voucher) on a real "
+          "manager; then 12-31 messages of every kind (update/cancel/voucher/restart/restart-existing requests; update/cancel/voucher-result/complete/restart/new responses) "
+          "from {counterparty, stranger, self, another channel's peer} with existing or fresh transfer ids; after each message only the single channel the message may "
+          "legitimately act on (by authenticated sender and role) may show a changed stored record, a new event or a transport call; then wrong-role local API calls must fail "
+          "without effect. C05Restart: a valid restart request and its single-field mutations (base CID, voucher type, voucher node, sender, transfer id, terminated channel, "
+          "later voucher instead of the original) and restart-existing requests (genuine, from a stranger, for a channel we did not initiate, terminated): honoured iff genuine. "
+          "distinct = population shape resp. (mutation, direction, later voucher)."),
+    parts=[
+        dict(test="TestC05Messages", quick=120, thorough=8000, per_shard=12),
+        dict(test="TestC05Restart", quick=192, thorough=9600, per_shard=24),
+    ],
+    floors=dict(any={"TestC05Messages.messages": 1500, "TestC05Messages.legit_effects": 200, "TestC05Messages.from.stranger": 200, "TestC05Restart.genuine_restarts": 10,
+                     "TestC05Restart.restart_mutations": 100, "TestC05Restart.restart_existing": 40}),
+    assumptions=["graphsync-path role checks (extension cross-checks) are exercised by the transport engine (C16 parts), not here"],
+)
